@@ -6,9 +6,9 @@ N=$1; PKG=$2; RUN=$3; CNT=${4:-1}
 CH=/tmp/mutchk/$N; OUT=/tmp/mut/$N.out
 cd $CH || exit 2
 cp $OUT/demo/*_test.go $PKG/ 2>/dev/null
-go test -vet=off -count=$CNT -run "$RUN" ./$PKG/ > /tmp/demo-with.log 2>&1; w=$?
+go test -vet=off $DEMO_FLAGS -count=$CNT -run "$RUN" ./$PKG/ > /tmp/demo-with.log 2>&1; w=$?
 git apply -R $OUT/patch.diff || { echo "cannot revert"; exit 2; }
-go test -vet=off -count=$CNT -run "$RUN" ./$PKG/ > /tmp/demo-without.log 2>&1; wo=$?
+go test -vet=off $DEMO_FLAGS -count=$CNT -run "$RUN" ./$PKG/ > /tmp/demo-without.log 2>&1; wo=$?
 git apply $OUT/patch.diff
 for f in $OUT/demo/*_test.go; do rm -f $PKG/$(basename $f); done
 echo "demo with patch rc=$w (want != 0), without rc=$wo (want 0)"
